@@ -55,8 +55,9 @@ Definition cyclic (nodes : list string) (es : list edge) : bool :=
 (* KSelfSilent, KNamedCycle, KStarUnsat, KStarReplace, KAfterOverwritten are KNOWN findings (the property
    fails for some of their members).  Until /repo 591f9f1 (depth guard in sortCallbacks) the members of
    KNamedCycle and of the self-target classes whose recursion never ended killed the process; they now get
-   an error.  KSelfTarget (a callback naming itself and nothing else naming it) is a label only: nothing is
-   excused for it any more. *)
+   an error.  KSelfTarget (a callback naming itself and nothing else naming it) and, since /repo e28c215
+   (Replace inherits the requests of a "*" callback), KStarReplace are labels only: nothing is excused
+   for them any more. *)
 Inductive kclass := KNone | KSelfTarget | KNamedCycle | KStarUnsat | KStarReplace | KAfterOverwritten | KSelfSilent.
 
 Definition self_target (live : list entry) : bool :=
@@ -100,7 +101,7 @@ Definition class_of (r : rstate) : kclass :=
   else KNone.
 
 Definition is_known (r : rstate) : bool :=
-  match class_of r with KNone | KSelfTarget => false | _ => true end.
+  match class_of r with KNone | KSelfTarget | KStarReplace => false | _ => true end.
 
 (* a history is excused from the first call on that puts the (in-domain) book into a known class *)
 Fixpoint known_from (r : rstate) (i : N) (h : list step) : bool :=
